@@ -21,7 +21,7 @@ RULE = ("sentences generated from the grammar expr := term (('*'|'/'|dot) term)*
         "from the grammar (reject unless the corrupted string is again a sentence).  The same "
         "strings go to the Lean model (`parse`) and the Lean reference grammar (`refParse`).  "
         "Non-trivial = contains '/' together with juxtaposition or brackets; thorough: all strings "
-        "up to length 5 over an 11-character alphabet and all token strings up to length 6")
+        "up to length 6 over an 11-character alphabet and all token strings up to length 6")
 ASSUMPTIONS = ["the scanner in Model/UnitParse.lean mirrors what re.fullmatch + finditer do for the "
                "pinned pattern texts; that is validated by this run (exhaustively over short "
                "strings in the thorough tier), not proved",
@@ -392,7 +392,7 @@ def exhaustive_strings(max_chars, max_toks):
         for t in itertools.product(alpha, repeat=n):
             yield "".join(t)
     toks = ["a", "b^2", "c^-1", "*", "/", "(", ")", "d^(1/2)"]
-    for n in range(max_chars + 1, max_toks + 1):
+    for n in range(2, max_toks + 1):
         for t in itertools.product(toks, repeat=n):
             yield "".join(t)
 
@@ -418,15 +418,15 @@ def correspond(ctx):
     r["failures"] += api_check(strings[:ctx.n(400, 5000)])
     if not ctx.quick:
         seen = {s for s, _, _ in strings}
-        ex = [(s, ref_parse(s), "exhaustive") for s in exhaustive_strings(5, 6) if s not in seen]
+        ex = [(s, ref_parse(s), "exhaustive") for s in exhaustive_strings(6, 6) if s not in seen]
         r2 = run(ctx, ex)
         r["evaluations"] += r2["evaluations"]
         r["failures"] += r2["failures"]
         for k, v in r2["distribution"].items():
             r["distribution"][k] = r["distribution"].get(k, 0) + v
         r["exhaustive"] = True
-        r["distribution"]["exhaustive: all strings of length<=5 over 'ab^2-*/()1.dot' and all "
-                          "token strings of length 6 over {a,b^2,c^-1,*,/,(,),d^(1/2)}"] = len(ex)
+        r["distribution"]["exhaustive: all strings of length<=6 over 'ab^2-*/()1.dot' and all "
+                          "token strings of length<=6 over {a,b^2,c^-1,*,/,(,),d^(1/2)}"] = len(ex)
     return r
 
 
